@@ -753,7 +753,7 @@ NMS_METHOD = {"unwrap_or": "Option.getD {0} {1}", "iter": "{0}", "into_iter": "{
 # ---- Kalman filters at matrix level (C07): nalgebra expressions as Mathlib matrices; state index = positions ⊕ velocities
 KF_METHOD = {"transpose": "Matrix.transpose {0}", "component_mul": "cmul {0} {1}", "into_iter": "{0}", "chain": "({0} ++ {1})", "unwrap": "{0}",
              "unwrap_or": "Option.getD {0} {1}", "solve_lower_triangular": "solveLower {0} {1}", "cholesky": "cholL {0}", "l": "{0}", "sum": "msum {0}"}
-KF_CALL = {"SVector::from_iterator": "colOfList {0}", "SVector::from_vec": "colOfList {0}", "SMatrix::from_diagonal": "diagOf {0}", "SMatrix::identity": "1"}
+KF_CALL = {"SVector::from_iterator": "colOfList {0}", "SVector::from_vec": "colOfList {0}", "SMatrix::from_diagonal": "diagOf {0}", "SMatrix::identity": "identityRect"}
 KF_FIELDPATH = {"self.motion_matrix": "motion_matrix", "self.update_matrix": "update_matrix", "state.mean": "state.1", "state.covariance": "state.2",
                 "projected_state.mean": "projected_state.1", "projected_state.covariance": "projected_state.2"}
 SOLVE = "(solveLower : {r c : Type} → [Fintype r] → [DecidableEq r] → Matrix r r α → Matrix r c α → Matrix r c α)"
@@ -767,6 +767,8 @@ def kf(prefix, file, impl, n_const, meas_sig, std_args):
     return [
         dict(base, name=prefix + "_motion_matrix", fn="new", sig="(dt : α) : Matrix %s %s α" % (X2, X2), result="motion_matrix", method=meth,
              pick=lambda st: [x for x in st if (x[0] == "let" and x[1] == ("pvar", "motion_matrix")) or (x[0] == "expr" and x[1][0] == "for")]),
+        dict(base, name=prefix + "_update_matrix", fn="new", sig=": Matrix %s %s α" % (X1, X2), imperative=False, method=meth,
+             pick=lambda st: [("expr", dict(st[-1][1][2])["update_matrix"])] if st and st[-1][0] == "expr" and st[-1][1][0] == "struct" else []),
         dict(base, name=prefix + "_initiate", fn="initiate", sig="(wpos wvel : α) (%s) : %s" % (meas_sig, ST), method=meth),
         dict(base, name=prefix + "_predict", fn="predict", sig="(motion_matrix : Matrix %s %s α) (wpos wvel : α) (state : %s) : %s" % (X2, X2, ST, ST), method=meth),
         dict(base, name=prefix + "_project", fn="project", sig="(update_matrix : Matrix %s %s α) (wpos : α) (mean : Matrix %s (Fin 1) α) (covariance : Matrix %s %s α) : Matrix %s (Fin 1) α × Matrix %s %s α" % (X1, X2, X2, X2, X2, X1, X1, X1), method=meth),
@@ -939,7 +941,7 @@ def gen(repo, cfgs, header, footer):
                 sel = c["pick"](list(body[1]) + ([("expr", body[2])] if body[2] is not None and not (body[2][0] == "call" and body[2][1] == ("path", ["Ok"])) else []))
                 if not sel:
                     raise Unsupported("the statements to translate were not found")
-                body = ("block", sel, None)
+                body = ("block", sel, None) if c.get("imperative") else ("block", sel[:-1], sel[-1][1])
             lean = Emit(c).cpsfn(body) if c.get("cps") else Emit(c).imperative(body) if c.get("imperative") else Emit(c).block(body)
             out.append("/-- src/%s `%s` -/\ndef %s %s :=\n  %s\n" % (c["file"], c["fn"], c["name"], c["sig"], lean))
         except (Unsupported, OSError, KeyError, IndexError, ValueError) as ex:
@@ -974,6 +976,8 @@ class NatIdx (ι : Type) where
 instance {n : Nat} [NeZero n] : NatIdx (Fin n) := ⟨Fin.val, Fin.ofNat n⟩
 instance {n : Nat} [NeZero n] : NatIdx (Fin n ⊕ Fin n) :=
   ⟨Sum.elim Fin.val (fun k => n + k.val), fun k => if k < n then Sum.inl (Fin.ofNat n k) else Sum.inr (Fin.ofNat n (k - n))⟩
+/-- `SMatrix::identity()`, also for non-square shapes: ones where row and column storage index coincide -/
+def identityRect {ι κ : Type} [NatIdx ι] [NatIdx κ] : Matrix ι κ α := fun a b => if NatIdx.toNat a = NatIdx.toNat b then 1 else 0
 /-- `SVector::from_iterator` / `from_vec`: a column vector from its entries in storage order -/
 def colOfList {ι : Type} [NatIdx ι] (l : List α) : Matrix ι (Fin 1) α := fun i _ => l.getD (NatIdx.toNat i) 0
 /-- `m[(i, j)] = v` -/
